@@ -18,6 +18,10 @@ func TestC04(t *testing.T) {
 	n3 := []string{"n1", "n2", "n3"}
 	lean := &w.Alpha{Templates: []string{"C"}, Kubectl: []string{"canary-validate", "canary-fail"}, AddNodes: []string{"n9"}, DelNodes: true}
 	scs := []scOpt{corpusS3(n3, "1", "auto", b, canaryDev()), corpusS3([]string{"n1", "n2"}, "50%", "auto", b, canaryDev()), corpusS3(n3, "2", "manual", b, lean)}
+	// the user edits the canary block while the canary runs: more replicas, fewer replicas, block removed
+	edits := corpusS3(n3, "2", "auto", 1, &w.Alpha{SpecEdits: []string{"drop-canary", "canary-replicas=1", "canary-replicas=3"}})
+	edits.name = "S3-canary-2-spec-edits"
+	scs = append(scs, edits)
 	if h.Thorough() {
 		faulty := canaryDev()
 		faulty.EDSFaults = []string{"lost:update ExtendedDaemonSet", "reject:list Node", "reject:list Pod"}
@@ -25,7 +29,7 @@ func TestC04(t *testing.T) {
 		scsExtra := corpusS3(n3, "2", "auto", 1, faulty)
 		scsExtra.name = "S3-canary-2-auto-with-faults"
 		n4 := []string{"n1", "n2", "n3", "n4"}
-		scs = []scOpt{scsExtra, corpusS3(n3, "1", "auto", 2, canaryDev()), corpusS3(n4, "50%", "auto", 2, canaryDev()), corpusS3(n4, "2", "manual", 1, canaryDev())}
+		scs = []scOpt{scsExtra, edits, corpusS3(n3, "1", "auto", 2, canaryDev()), corpusS3(n4, "50%", "auto", 2, canaryDev()), corpusS3(n4, "2", "manual", 1, canaryDev())}
 	}
 	runWorld(t, run, scs, []func(*w.MonCtx){w.MonC04}, 0)
 	requireAntecedents(run, "C04a/new-template-create", "C04c/active-sync-during-canary", "C04d/label-expected", "C04b/selection")
